@@ -1,7 +1,7 @@
 (* C06 — A refused manipulation changes nothing; calls on live nodes do not panic.
    Pinned statements only.  Model: Model/Store.v, Model/Manip.v (src/manipulation.rs, src/nodemap/core.rs). *)
 From Coq Require Import List NArith.
-From XotV Require Import Model.Base Model.Zipper Model.Access Model.Store Model.Manip Proofs.ManipProofs Proofs.InvSteps Proofs.Atomic.
+From XotV Require Import Model.Base Model.Zipper Model.Access Model.Store Model.Manip Proofs.ManipProofs Proofs.InvSteps Proofs.Atomic Proofs.NoPanic.
 Import ListNotations.
 Open Scope N_scope.
 
@@ -50,3 +50,14 @@ Theorem C06_value_setters_total :
     end.
 Proof. exact value_setters_total. Qed.
 Print Assumptions C06_value_setters_total.
+
+(* "A manipulation call ... never panics apart from the documented panics of the element-only accessors": in every good store
+   (C04: every reachable one) a call of the node-level API whose outcome is the model's Panic is either one of the element-only
+   accessors applied to a non-element (the documented panics), or clone_node.
+   PARTIAL: clone_node is left out (its replay loop unwraps the result of every append it makes; that these succeed is the
+   clone-shape statement of C12, decided by the correspondence run).  Arguments need not even be live. *)
+Theorem C06_no_panic_partial :
+  forall st o, Good st -> snd (mstep st o) = MPanic ->
+    (exists n, o = OCloneNode n) \/ (exists e, element_only o = Some e /\ is_type st e TElement = false).
+Proof. exact no_panic_partial. Qed.
+Print Assumptions C06_no_panic_partial.
